@@ -436,8 +436,13 @@ def run_history(tid, isa, cpu, buf, steps, dom, meta=None):
 def _history_step(st, r, z, g, nodes, cfg):
     """one API call on the real graph; False when the step does not apply (nothing is logged)"""
     if st[0] == "add":
-        b = z.getblock(st[1])
-        if b is None:
+        try:
+            b = z.getblock(st[1])
+        except Exception as e:
+            if "disassembler.__call__" in exc_sig(e):
+                return False      # a decoder exception (C17's subject): there is no block to insert
+            raise
+        if b is None or not b.instr:
             return False
         r["bd"] = [ival(i.address) for i in b.instr] + [ival(b.instr[-1].address) + int(b.instr[-1].length)]
         n = cfg.node(b)
@@ -447,7 +452,12 @@ def _history_step(st, r, z, g, nodes, cfg):
         # any contiguous run of the stream (no sweep yields it): a block built from the sweep's instructions
         import itertools
         from amoco import code
-        ins = list(itertools.islice(z.sequence(z.prog.cpu.cst(st[1], z.prog.cpu.PC().size)), st[2]))
+        try:
+            ins = list(itertools.islice(z.sequence(z.prog.cpu.cst(st[1], z.prog.cpu.PC().size)), st[2]))
+        except Exception as e:
+            if "disassembler.__call__" in exc_sig(e):
+                return False
+            raise
         if len(ins) != st[2]:
             return False
         b = code.block(ins)
